@@ -474,7 +474,7 @@ pub struct Family {
     pub kind: FamilyKind,
 }
 
-pub const FAMILIES: [Family; 40] = [
+pub const FAMILIES: [Family; 42] = [
     Family { name: "paren-a", kind: FamilyKind::Nest },
     Family { name: "paren-num", kind: FamilyKind::Nest },
     Family { name: "array-num", kind: FamilyKind::Nest },
@@ -513,6 +513,10 @@ pub const FAMILIES: [Family; 40] = [
     Family { name: "range-content", kind: FamilyKind::Chain },
     Family { name: "any-a", kind: FamilyKind::Chain },
     Family { name: "xfer-list", kind: FamilyKind::Chain },
+    // (depths 1..=200 and 1..=40, no chains of thousands: every error costs the language server a scan of
+    // the text, so thousands of them are a matter of minutes, not of correctness)
+    Family { name: "lexical-errors", kind: FamilyKind::Nest },
+    Family { name: "lexical-error-run", kind: FamilyKind::Digits },
     Family { name: "digits", kind: FamilyKind::Digits },
     Family { name: "status-digits", kind: FamilyKind::Digits },
 ];
@@ -580,6 +584,9 @@ pub fn family_text(name: &str, d: usize) -> String {
         "range-content" => chain("<>", " :: ", "<>", d),
         "any-a" => chain("a", " ~ ", "a", d),
         "xfer-list" => chain("/ on get -> <>", ", ", "put -> <>", d),
+        // d characters outside the alphabet, apart and in one run, with valid text after them
+        "lexical-errors" => format!("{} ~ b", chain("a", " \u{a7} ", "a", d)),
+        "lexical-error-run" => format!("a {} ~ b", rep("\u{a7}", d)),
         "digits" => rep("9", d),
         "status-digits" => format!("<status={}>", rep("9", d)),
         _ => panic!("unknown family {name}"),
